@@ -20,7 +20,8 @@
 (*       "q"    k = blocks                                                 *)
 (*       "ul" "ol"  k = items;  item: t = "item", a = "none"|"open"|"done" *)
 (*              (task state), k = blocks, the first one a "p"              *)
-(*       "fence" "icode"  a = info string, k = lines;                      *)
+(*       "fence" "icode"  a = info string, k = lines; fence: n = indentation*)
+(*              of the fence itself (0..3 columns)                        *)
 (*              line: t = "line", a = indentation "0" | "2" | "t" (tab),   *)
 (*              k = txt children (none = blank line)                       *)
 (*       "hr"                                                              *)
@@ -133,6 +134,13 @@ RNode(x, F, o) ==
 \* ---- expected Word blocks ---------------------------------------------------
 Indent(a) == CASE a = "2" -> <<Sp, Sp>> [] a = "t" -> <<T("tab", {})>> [] OTHER -> <<>>
 LineToks(ln) == Indent(ln.a) \o RInl(ln.k, {}, DefaultOpts)
+\* a line of a fenced block whose opening fence is indented by n columns (1..3): up to n columns of the line's own
+\* indentation are removed; a tab is 4 columns wide and what is left of a partly consumed tab is spaces
+IndCols(a) == CASE a = "2" -> 2 [] a = "t" -> 4 [] OTHER -> 0
+FenceLineToks(ln, n) ==
+  IF n = 0 THEN LineToks(ln)
+  ELSE LET rem == IF IndCols(ln.a) > n THEN IndCols(ln.a) - n ELSE 0
+       IN [i \in 1..rem |-> Sp] \o RInl(ln.k, {}, DefaultOpts)
 
 AlLit(a) == CASE a = "l" -> <<Ch(":", {}), Ch("-", {}), Ch("-", {})>>
               [] a = "c" -> <<Ch(":", {}), Ch("-", {}), Ch(":", {})>>
@@ -178,7 +186,8 @@ Blk(b, o) ==
     [] b.t = "p"    -> <<[k |-> "p", toks |-> RInl(b.k, {}, o)]>>
     [] b.t = "q"    -> FlatBlks(b.k, o)
     [] b.t \in ListKinds -> ItemsBlks(b.k, o)
-    [] b.t \in {"fence", "icode"} -> [i \in 1..Len(b.k) |-> [k |-> "cl", toks |-> LineToks(b.k[i])]]
+    [] b.t = "fence" -> [i \in 1..Len(b.k) |-> [k |-> "cl", toks |-> FenceLineToks(b.k[i], b.n)]]
+    [] b.t = "icode" -> [i \in 1..Len(b.k) |-> [k |-> "cl", toks |-> LineToks(b.k[i])]]
     [] b.t = "hr"   -> <<[k |-> "hr"]>>
     [] b.t = "mathb" -> IF o.math THEN <<[k |-> "math", toks |-> RMath(b.k, {})]>>
                         ELSE <<[k |-> "p", toks |-> <<Ch("$", {}), Ch("$", {}), Sp>> \o RMath(b.k, {})
@@ -232,6 +241,7 @@ CB(b, par, host, o) ==
     [] b.t \in {"fence", "icode"} ->
          me \cup (IF host # "" THEN {host \o ">code"} ELSE {})
             \cup (IF b.a # "" THEN {"code:info"} ELSE {})
+            \cup (IF b.t = "fence" /\ b.n > 0 THEN {"code:fence-ind"} ELSE {})
             \cup (IF \E i \in 1..Len(b.k) : b.k[i].k = <<>> THEN {"code:blank"} ELSE {})
             \cup (IF \E i \in 1..Len(b.k) : b.k[i].a = "2" THEN {"code:ind"} ELSE {})
             \cup (IF \E i \in 1..Len(b.k) : b.k[i].a = "t" THEN {"code:tab"} ELSE {})
